@@ -44,11 +44,29 @@ fn apply_fixes(src: &str, fixes: &[Autofix]) -> String {
     // them from the end without invalidating earlier offsets.
     fixes.sort_by_key(|b| std::cmp::Reverse(b.position.start_offset));
 
+    // The same fix can be offered by more than one diagnostic.
+    fixes.dedup_by(|a, b| {
+        a.position.start_offset == b.position.start_offset
+            && a.position.end_offset == b.position.end_offset
+            && a.new_text == b.new_text
+    });
+
+    // Fixes are computed independently, so two of them can cover the
+    // same text. Once we've applied one of them, the offsets of the
+    // other are no longer valid, so we skip it. It will be offered
+    // again the next time the file is checked.
+    let mut applied_start = src.len();
+
     let mut result = src.to_owned();
     for fix in fixes {
         let start = fix.position.start_offset;
         let end = fix.position.end_offset;
+        if end > applied_start {
+            continue;
+        }
+
         result = format!("{}{}{}", &result[..start], fix.new_text, &result[end..]);
+        applied_start = start;
     }
     result
 }
